@@ -338,3 +338,10 @@ def automatic_limit_checks(ctx):
     """shared with C18.R2: the automatic check_<p> for <p>_min/_max/_limits is generated and collected for the whole MRO"""
     from sa.rules import c18
     c18.automatic_limit_checks(ctx)
+
+
+@rule('C04.R8', min_instances=1)
+def value_slots_tested_by_identity(ctx):
+    """shared with C06.R7"""
+    from sa.rules import common
+    common.truthiness_on_value_slots(ctx, {'frappy.protocol.dispatcher', 'frappy.modulebase', 'frappy.params'})
